@@ -224,7 +224,9 @@ def run_jobs(chk: Check, fn, jobs, procs=None):
     procs = procs or min(16, max(1, len(jobs)))
     args = [(fn, j, chk.seed) for j in jobs]
     if procs == 1 or len(jobs) == 1:
+        saved = C.STATS.__dict__.copy()
         results = [_job_wrapper(a) for a in args]
+        C.STATS.__dict__.update(saved)
     else:
         ctx = mp.get_context('fork')
         with ctx.Pool(procs, maxtasksperchild=8) as pool:
